@@ -26,7 +26,7 @@ rm -f zz_demo_test.go
 mkdir -p $W.vout
 DET=""; RES=""
 for c in "$@"; do
-  OUT=$(VERIF_REPO=$W VERIF_OUT=$W.vout timeout 2400 /verif/bin/artsym3 check $c --tier ${TIER:-quick} 2>&1)
+  OUT=$(VERIF_REPO=$W VERIF_OUT=$W.vout timeout 2400 /verif/bin/artsym check $c --tier ${TIER:-quick} 2>&1)
   code=$?
   line=$(echo "$OUT" | grep "tier=" | tail -1)
   det=$(echo "$OUT" | grep "detail:" | head -2 | cut -c1-300)
